@@ -13,8 +13,8 @@ def add(pid, cat, technique, text, note):
 
 
 add('C14', 'exploration', 'bounded-exhaustive enumeration of (filter, metadata) pairs on the real matcher vs reference matcher',
-    'Every filter of a closed universe (atoms, operator objects, lists of <=2/3 alternatives, nested list, 2-key filters) against every recorded '
-    'value (absent + 15 JSON values) is evaluated twice on the real matcher and through a real cassette listing and compared with a reference '
+    'Every filter of a closed universe (atoms, operator objects incl. None / dict / list operands, lists of <=2/3 alternatives, nested list, 2-key '
+    'filters) against every recorded value (absent + 16 JSON values) is evaluated twice on the real matcher and through listings of the in-memory and the S3 (fake bucket) cassette and compared with a reference '
     'matcher written from the documentation; totality (never raises) and determinism are part of the oracle. Exhaustive within the universe.',
     'Reference matcher encodes the documented semantics; values outside the universe are not covered; operator objects with value None excluded.')
 
@@ -86,6 +86,19 @@ add('C11', 'exploration', 'exhaustive product of mutable value shapes x read pat
     'read path; every mutable node reached is mutated in place; the second observation (same object, refetch from the same cassette object, fresh '
     'cassette object, second replay) must equal the pristine value and share no object with the first; copy-on-interception with post-capture mutation.',
     'get_metadata() of one recording object and get_data_direct are not required to copy; independence is demanded between fetches.')
+
+add('C07', 'model_checking', 'exhaustive content universe + exhaustive save/fetch histories up to a depth bound on every real cassette type vs a reference store',
+    'Content: every combination of 0..3 keys from 11 hostile key texts with values rotating through the universe (incl. objects shared between keys '
+    'and between data and metadata) x 5 metadata kinds on memory, file and S3 (prefix none / p / p/q, fake bucket). Histories: every sequence up to '
+    'depth 3/4 over save / re-save / get / get-metadata of three recordings in two categories and fetches of never-saved ids; each fetch goes through a '
+    'long-lived reader object, is compared with a reference store, and the fetched copy is tampered with afterwards.',
+    'Contents limited to the measured faithful domain of the pinned jsonpickle; S3 behind an in-memory fake bucket.')
+add('C10', 'model_checking', 'exhaustive enumeration of saved sets x queries on 7 real cassette configurations vs reference matcher',
+    'Every set of <=3 (thorough 4) saved recordings over 11 kinds (categories that are prefixes of one another / contain underscores, metadata absent '
+    'or present, four incomplete-flag states, optional re-save) x every query (5 categories x 9 filters x 4 limits x ordered/random, and the studio '
+    'lookup with/without skip-incomplete) on memory, file (two directory orders), S3 with prefixes none / p / pp in one shared bucket with foreign '
+    'recordings, and a read-only S3 view: no duplicates, subset of the reference, exact size, every id fetchable.',
+    'limit=0 excluded; listing order not demanded; crash in the middle of a file save is outside the quantifier.')
 
 NOT_YET = {}
 
